@@ -433,10 +433,14 @@ def register(reg):
         'pylatexenc.latexnodes._tokenreaderbase.LatexTokenReaderBase.cur_pos'})
 
     # ---- the legacy argument views -------------------------------------------------------------------------------------------------------------------
-    ARGSPECS = ['', '{', '[', '[{', '{{', '*[{', '*', '[{{', '{[', '**[', '*{']
+    # every signature over the three letters up to four slots (121).  (The name is not ARGSPECS: a list of that name is bound again
+    # further down in this function, and the closure below would read THAT one -- which is how seed C16_7, needing two leading
+    # stars, went unnoticed until this list got its own name.)
+    import itertools as _it
+    VIEW_ARGSPECS = [''.join(t) for n in range(5) for t in _it.product('*[{', repeat=n)]
 
     def setup_views(it):
-        sp = ARGSPECS[it.ctx.choose(len(ARGSPECS), 'argspec')]
+        sp = VIEW_ARGSPECS[it.ctx.choose(len(VIEW_ARGSPECS), 'argspec')]
         items = [AbsVal(z3.Int('arg%d' % j), 'node', attrs={'truth': lambda i2, sf: True}) for j in range(len(sp))]
         argd = new_obj(it, PARGS, {'argnlist': PyList(items), 'arguments_spec_list': PyList([None] * len(sp)), '_argspec': sp}, tag='self')
         it.ctx.ghost['view_in'] = (sp, items)
